@@ -74,6 +74,11 @@ var c01MapExempt = map[string]string{
 	"tm2/pkg/crypto/merkle.SimpleProofsFromMap range m": "same: collected into a simpleMap and sorted before proofs are built",
 }
 
+// exemptions whose reason is "the store calls are unmetered (nil gas context)".
+var c01ExemptNeedsNilGas = map[string]bool{
+	"tm2/pkg/sdk/bank.(BankKeeper).RecomputeSupply range totals": true,
+}
+
 // c01SourceExempt: nondeterminism-source sites (time/rand/env/go/select),
 // keyed by enclosing root function + kind.
 var c01SourceExempt = map[string]string{
@@ -122,7 +127,26 @@ func c01(c *engine.Ctx) {
 				key := root + " range " + engine.ExprString(x.X)
 				if why, ok := c01MapExempt[key]; ok {
 					usedMap[key] = true
-					c.Check("det-map-range", key, x.Pos(), true, "tabled: "+why)
+					okCond, whyCond := true, ""
+					if c01ExemptNeedsNilGas[key] {
+						// the exemption's reason is "unmetered": every store call in the body must pass a nil gas context
+						ast.Inspect(x.Body, func(n ast.Node) bool {
+							call, isCall := n.(*ast.CallExpr)
+							if !isCall || len(call.Args) == 0 {
+								return true
+							}
+							if sel, isSel := call.Fun.(*ast.SelectorExpr); isSel {
+								switch sel.Sel.Name {
+								case "Set", "Get", "Delete", "Has", "Iterator", "ReverseIterator":
+									if tv, has := f.Info().Types[call.Args[0]]; !has || !tv.IsNil() {
+										okCond, whyCond = false, "store call `"+engine.ExprString(call)+"` inside the map range is metered (non-nil gas context): gas at an out-of-gas point would depend on map order"
+									}
+								}
+							}
+							return true
+						})
+					}
+					c.Check("det-map-range", key, x.Pos(), okCond, "tabled: "+why+" "+whyCond)
 					return
 				}
 				ok, why := c01OrderInsensitive(f, x)
